@@ -1093,6 +1093,20 @@ func TestVerif(t *testing.T) {
 			fmt.Println("cannot read replay:", err)
 			os.Exit(2)
 		}
+		if sc.Kind == "stress" {
+			var st StressCase
+			if err := vlib.ReplayCase(env.Replay, &st); err != nil {
+				fmt.Println("cannot read replay:", err)
+				os.Exit(2)
+			}
+			fmt.Printf("replay of %+v (real threads, at most %d rounds / 2 min)\n", st, st.Rounds)
+			if v := replayStress(st); v != nil {
+				fmt.Printf("monitor: FAILS: %s\n", v.what)
+				os.Exit(1)
+			}
+			fmt.Println("no clause violated")
+			return
+		}
 		o := runScenario(t, &sc, nil, 0)
 		fmt.Printf("replay of %s\n", sc.key())
 		for _, l := range o.Lines {
@@ -1117,6 +1131,17 @@ func TestVerif(t *testing.T) {
 		return
 	}
 
+	// real-threads phase first (stress_test.go): the tail of the index hand-out with all workers coming
+	// back at once. A stray index found here is written out at once and switches the Map variants off (in
+	// them a stray index is an index-out-of-range panic inside a library goroutine, which nothing recovers).
+	stressBudget := 1500 * time.Millisecond
+	if env.Thorough() || env.Deep {
+		stressBudget = 12 * time.Second
+	}
+	if stressPhase(res, stressBudget) {
+		outOfRange = true
+		res.Write(env.Out)
+	}
 	// probe: Do/DoContext on small configurations before anything else (see outOfRange)
 	for _, mode := range []string{"do", "dc"} {
 		for p := -1; p <= 3; p++ {
